@@ -12,6 +12,7 @@ import (
 	"os"
 	"runtime"
 	"runtime/debug"
+	"strconv"
 	"sync/atomic"
 	"time"
 )
@@ -253,7 +254,7 @@ type Adaptor interface {
 
 type Mismatch struct {
 	Kind     string            `json:"mkind"` // mismatch | panic
-	Path     []json.RawMessage `json:"path"` // labels from the initial state, last one failing
+	Path     []json.RawMessage `json:"path"`  // labels from the initial state, last one failing
 	Edge     int               `json:"edge"`
 	WantRes  string            `json:"want_res"`
 	GotRes   string            `json:"got_res"`
@@ -300,6 +301,10 @@ func Watchdog(o Options) {
 	}
 	if o.MemLimit == 0 {
 		o.MemLimit = 3 << 30
+		// (a check whose graphs are known to be large raises the budget of its walker processes)
+		if gb, err := strconv.Atoi(os.Getenv("VERIF_WALK_MEM_GB")); err == nil && gb > 0 {
+			o.MemLimit = uint64(gb) << 30
+		}
 	}
 	debug.SetGCPercent(100)
 	go func() {
